@@ -72,6 +72,7 @@ fn vk_c04_history_arith_bonus() {
 }
 
 //@ obligation: C12.history_reset
+//@ status: experimental
 //@ property: C12
 //@ domain: complete
 //@ functions: engine/search/tables.rs::HistoryTable::reset, engine/search/tables.rs::HistoryTable::new
@@ -92,6 +93,7 @@ fn vk_c12_history_reset() {
 }
 
 //@ obligation: C04.history_arith.decay
+//@ status: experimental
 //@ property: C04
 //@ domain: complete
 //@ functions: engine/search/tables.rs::HistoryTable::decay
@@ -112,6 +114,7 @@ fn vk_c04_history_arith_decay() {
 }
 
 //@ obligation: C04.index.countermove
+//@ status: experimental
 //@ property: C04
 //@ domain: complete
 //@ functions: engine/search/tables.rs::CountermoveTable::set, engine/search/tables.rs::CountermoveTable::get
